@@ -311,6 +311,9 @@ class ExprMixin(ExecBase):
             if a.ty.kind == 'py' and b.ty.kind == 'py':
                 return z3.BoolVal(a.py == b.py)
             return coerce(a, ANY).term == coerce(b, ANY).term
+        if (a.ty.kind in ('list', 'dict', 'set', 'tuple') and b.ty.kind == 'obj' and b.ty.cls == 'NoneType') or \
+           (b.ty.kind in ('list', 'dict', 'set', 'tuple') and a.ty.kind == 'obj' and a.ty.cls == 'NoneType'):
+            return z3.BoolVal(False)    # a container value is never None (parameters typed as containers are required to be given)
         if a.ty.kind == 'tuple' and b.ty.kind == 'tuple':
             if len(a.term) != len(b.term):
                 return z3.BoolVal(False)
